@@ -59,7 +59,7 @@ FLOORS = {'quick': {'__nontrivial__': 500, 'schedule:call-overlapped': 2000, 'sc
                        'schedule:switching:forced': 2000, 'history:fail-then-ok': 1500, 'history:step': 30000,
                        'hashseed:suggestion-message': 1000, 'hashseed:call': 6000}}
 N = {'quick': 120, 'thorough': 2000}
-TARGETS = ('mysql', 'postgres', 'sqlite', 'mssql', 'oracle')
+TARGETS = ('mysql', 'postgres', 'sqlite', 'mssql', 'oracle', 'Snowflake', 'postgresql')
 HASHSEEDS = ('0', '1', '2', '3', 'random')
 MODES = ('none', 'catalog', 'render')
 CHILD_TIMEOUT_S = 300          # safety net only (deadlocked child); hitting it is a harness error
@@ -197,7 +197,12 @@ RENDER_SQL = [
     'select a as `x y`.z from t1',
     'show tables',
     'create model m predict y',
+    # literals whose spelling differs between targets (backslashes, quotes, percent signs)
+    "select 'C:\\\\temp\\\\x' as p from t1 where b = 'it''s'",
+    "insert into t1 (a, b) values ('a\\\\b', '100%')",
+    "select * from t1 where a like 'x\\\\_%' and b in ('q\\\\', 'r')",
 ]
+RENDER_SET = set(RENDER_SQL)
 
 
 # --------------------------------------------------------------------------------------------- calls and results
@@ -449,6 +454,13 @@ def build_calls(tier):
     for head in ERR_HEADS:
         for tail in ERR_TAILS:
             add({'op': 'parse', 'sql': head + ' ' + tail, 'dialect': 'mindsdb', 'family': 'err-tail'})
+    # production-pair sentences of the live grammars (every production, every alternative of its nonterminals, names
+    # all different): messages of the grammar actions that refuse a statement are reached here
+    from vf.gens import grammar
+    for d in corpus.DIALECTS:
+        for i, (_, toks) in enumerate(grammar.get(d).pair_sentences()):
+            if full or i % 5 == 0:
+                add({'op': 'parse', 'sql': ' '.join(toks), 'dialect': d, 'family': 'pairs'})
     names = sorted(CATALOGS)
     for i, x in enumerate(corpus.accepted('mindsdb')):
         if full:
@@ -477,6 +489,8 @@ def call_class(call, res):
     ok = res[0] != 'exc'
     if call.get('family') == 'err-tail':
         return 'parse-err-tail'
+    if call.get('family') == 'pairs':
+        return 'parse-pairs'          # only for the hash-seed sub-check and the baselines: kept out of the drawn pools
     if op == 'parse':
         return 'parse-ok' if ok else ('parse-fail-suggest' if has_suggestions(res) else 'parse-fail')
     if op == 'plan':
@@ -488,6 +502,8 @@ def call_class(call, res):
                 return 'plan-pred:' + call['catalog']
             return 'plan-hand:' + call['catalog']
         return 'plan-ok' if ok else 'plan-fail'
+    if call['sql'] in RENDER_SET:
+        return 'render-hand'         # one statement for every target: whatever is remembered per compiler class shows
     return 'render-ok' if ok else 'render-fail'
 
 
@@ -954,12 +970,12 @@ def judge(case, col):
 # --------------------------------------------------------------------------------------------- generation
 
 W_NONE = ['parse-ok'] * 4 + ['parse-fail'] * 3 + ['parse-fail-suggest'] * 3 + [
-    'plan-ok', 'plan-fail', 'plan-hand', 'plan-cte', 'plan-pred', 'render-ok', 'render-ok', 'render-fail']
+    'plan-ok', 'plan-fail', 'plan-hand', 'plan-cte', 'plan-pred', 'render-ok', 'render-hand', 'render-fail']
 W_CATALOG = ['plan-pred'] * 5 + ['plan-cte'] * 3 + ['plan-hand'] * 2 + ['plan-ok'] * 2 + [
     'plan-fail', 'parse-ok', 'parse-fail-suggest', 'render-ok']
-W_RENDER = ['render-ok'] * 6 + ['render-fail'] * 2 + ['parse-ok', 'parse-fail', 'plan-ok', 'plan-pred']
+W_RENDER = ['render-ok'] * 4 + ['render-hand'] * 4 + ['render-fail'] * 2 + ['parse-ok', 'parse-fail', 'plan-ok', 'plan-pred']
 W_HISTORY = ['parse-ok'] * 2 + ['parse-fail', 'parse-fail-suggest', 'plan-pred', 'plan-pred', 'plan-cte', 'plan-cte',
-                                'plan-hand', 'plan-ok', 'plan-fail', 'render-ok', 'render-ok', 'render-fail']
+                                'plan-hand', 'plan-ok', 'plan-fail', 'render-ok', 'render-hand', 'render-hand', 'render-fail']
 PER_CATALOG = ('plan-hand', 'plan-cte', 'plan-pred')
 
 
@@ -1005,6 +1021,11 @@ def cases(draw):
         calls = [draw(st.sampled_from(_POOL['parse-err-tail'])) if draw(st.integers(0, 4)) else draw(a_call(W_HISTORY, focus))
                  for _ in range(n)]
         return {'sub': 'history', 'calls': calls, 'family': 'err-tail'}
+    if draw(st.integers(0, 3)) == 0 and _POOL.get('render-hand'):
+        # a history dominated by renderings of the same few statements for all targets
+        calls = [draw(st.sampled_from(_POOL['render-hand'])) if draw(st.integers(0, 4)) else draw(a_call(W_HISTORY, focus))
+                 for _ in range(n)]
+        return {'sub': 'history', 'calls': calls, 'family': 'render-hand'}
     return {'sub': 'history', 'calls': [draw(a_call(W_HISTORY, focus)) for _ in range(n)]}
 
 
